@@ -27,6 +27,10 @@ chk("C11", "fcsim", "exploration",
     "After every step (or at audit steps) of the same histories, before and after pruning: GetSlot, InSubtree (ordered root pairs), ClosestToSlot, CanonAtSlot (with/without block), CanonicalChain (prefix down to the anchor), Search by parent and/or slot (result set and canonical split), ProcessBlock's ok, and unknown/pruned roots answered as unknown, all against a direct walk of the model tree.",
     "Same trusted base as C09. Head-dependent queries are compared only where both documented fork-choice parent relations give the same viable head. The no-filter 'heads' form of Search is not compared (not named by the property; documentation ambiguous).",
     SIM + "seeded history search vs. tree-walk reference model", "DESIGN.md section 6 C11")
+chk("C16", "cachesim", "exploration",
+    "A tree of simulated chains that agree on a prefix of validators and then include the same depositors in different orders, all sharing PubkeyCache handles exactly as ProcessDeposit does (AddValidator(len(registry), pubkey) on the chain's handle), plus known-pair and beyond-next calls; after every call every live handle is audited against a per-handle list model (index->pubkey, pubkey->index, absent entries, handle identity on no-op vs conflict). Termination is decided structurally: unbounded recursion ends in a fatal stack overflow under a 2 MiB stack limit, attributed to the announced seed; a self-deadlock is the runtime's deadlock verdict.",
+    "Trusts the list model. Pubkeys are synthetic 48-byte labels (no decompression). A pubkey already present at a LOWER index of the same history is not generated (ProcessDeposit treats it as a top-up and never calls AddValidator).",
+    SIM + "seeded deposit-history search vs. per-handle list model; crash-attributed non-termination", "DESIGN.md section 6 C16")
 
 pending = {
  "C01": "check not built yet (planned: chainsim + refspec); not claimed in this revision",
@@ -50,6 +54,7 @@ pending = {
 for pid in checks: pending.pop(pid, None)
 
 engines = [
+ {"name": "cachesim", "path": "sim/cachesim", "serves_properties": ["C16"], "kind_free_text": "tree of deposit histories sharing real PubkeyCache handles vs. per-handle list model"},
  {"name": "fcsim", "path": "sim/fcsim", "serves_properties": ["C09", "C10", "C11"], "kind_free_text": "abstract block-tree histories on the real ProtoForkChoice/ProtoArray/ProtoVoteStore vs. naive GHOST + tree walk"},
 ]
 m = {
